@@ -479,7 +479,8 @@ structure SheetAcc where
   visible : SheetVisible := .visible
   deriving Repr, DecidableEq
 
-/-- the `for a in e.attributes()` loop of the `<sheet>` arm -/
+/-- the `for a in e.attributes()` loop of the `<sheet>` arm. The relationship id is the attribute with a prefix
+    and local name `id` (`key.prefix().is_some() && key.local_name() == b"id"`, after fix D23). -/
 def sheetAttrs (rels : List (String × String)) : List (String × String) → SheetAcc → Res SheetAcc
   | [], acc => .ok acc
   | (k, v) :: rest, acc =>
@@ -488,7 +489,7 @@ def sheetAttrs (rels : List (String × String)) : List (String × String) → Sh
       match Gen.xlsxVisTable.lookup v with
       | some vis => sheetAttrs rels rest { acc with visible := vis }
       | none => .err (unrec "sheet:state" v)
-    else if k = "r:id" ∨ k = "relationships:id" then
+    else if (afterColon k.toList).isSome ∧ localName k = "id" then
       match rels.lookup v with
       | some t => sheetAttrs rels rest { acc with path := xlsxPath t.toList }
       | none => .err "RelationshipNotFound"
